@@ -9,6 +9,8 @@ package mcp
 import (
 	"encoding/json"
 	"fmt"
+	"math"
+	"strconv"
 
 	"trpc.group/trpc-go/trpc-mcp-go/internal/errors"
 )
@@ -120,6 +122,43 @@ func marshalJSONRPCMessage(msg interface{}) ([]byte, error) {
 		return json.Marshal(newJSONRPCErrorResponse(m.ID, ErrCodeInternal, err.Error(), nil))
 	}
 	return nil, err
+}
+
+// requestIDKey renders a JSON-RPC id as the key under which a pending request is registered and looked up.
+// The id a request is sent with (int, int64, uint64, string) and the id found in its answer after JSON decoding
+// (float64, json.Number, string) render to the same key; a string id never collides with a number ("s:7" vs "n:7").
+func requestIDKey(id interface{}) string {
+	switch v := id.(type) {
+	case string:
+		return "s:" + v
+	case int:
+		return "n:" + strconv.FormatInt(int64(v), 10)
+	case int32:
+		return "n:" + strconv.FormatInt(int64(v), 10)
+	case int64:
+		return "n:" + strconv.FormatInt(v, 10)
+	case uint64:
+		return "n:" + strconv.FormatUint(v, 10)
+	case float64:
+		if v == math.Trunc(v) {
+			if v >= -(1<<63) && v < 1<<63 {
+				return "n:" + strconv.FormatInt(int64(v), 10)
+			}
+			if v >= 0 && v < 1<<64 {
+				return "n:" + strconv.FormatUint(uint64(v), 10)
+			}
+		}
+		return "n:" + strconv.FormatFloat(v, 'g', -1, 64)
+	case json.Number:
+		if i, err := v.Int64(); err == nil {
+			return "n:" + strconv.FormatInt(i, 10)
+		}
+		if f, err := v.Float64(); err == nil {
+			return requestIDKey(f)
+		}
+		return "n:" + v.String()
+	}
+	return fmt.Sprintf("x:%v", id)
 }
 
 // newJSONRPCNotification creates a new JSON-RPC notification
